@@ -26,6 +26,18 @@ PairsFails(thr, ev) ==
                      IsFin(ev.score) /\ CD!PN(ev.y) > 0 /\
                      Approx(Mul(ev.score, FromInt(2 * CD!PN(ev.y))), FromInt(CD!Auc2(ev.dec, ev.y)), 2, 2, One))
              ELSE {})
+(* the distances that predict compares are those of the points the tuples DESIGNATE (formed points, or the rows of the  *)
+(* estimator's CURRENT preprocessor that the indices name) under the model in force: d_i ~ ||L (p_i - q_i)||            *)
+DesignatedFails(L, ev) ==
+  IF "pts" \notin DOMAIN ev \/ ~AllFinV(ev.d) \/ Len(ev.pts) # Len(ev.d) THEN {}
+  ELSE LET n == Len(ev.pts)
+           allp == [i \in 1..(2 * n) |-> ev.pts[(i + 1) \div 2][IF i % 2 = 1 THEN 1 ELSE 2]]
+           mx == MaxAbsSeq([i \in 1..(2 * n) |-> MaxAbsV(allp[i])], 1)
+           S2 == Sq(Mul(Sum1M(L), Add(mx, mx)))
+       IN CF("C04.pairs_distance_is_of_designated_points",
+             \A i \in 1..n : ~IsNeg(ev.d[i]) /\
+                 Approx(Sq(ev.d[i]), DM!Dot(DM!MatVec(L, DM!VSub(ev.pts[i][1], ev.pts[i][2])),
+                                            DM!MatVec(L, DM!VSub(ev.pts[i][1], ev.pts[i][2]))), 2, 3, S2))
 PairsEx(ev) == {"C04.threshold_unchanged_by_queries", "C04.pairs_predict", "C04.pairs_decision_is_negated_distance"}
                \cup (IF ev.has_score THEN {"C04.pairs_score_is_auc"} ELSE {})
 
